@@ -14,7 +14,13 @@ import (
 	"golang.org/x/tools/go/ssa/ssautil"
 )
 
-const RepoDir = "/repo"
+// RepoDir is the tree under check (/repo; GSX_REPO overrides it for development runs on a scratch copy).
+var RepoDir = func() string {
+	if d := os.Getenv("GSX_REPO"); d != "" {
+		return d
+	}
+	return "/repo"
+}()
 const CachePath = "github.com/fufuok/cache"
 
 type Loaded struct {
